@@ -37,6 +37,20 @@ class Results:
             self.violated(rule, instance, what_if_false, loc, engine)
         return cond
 
+    def form(self, cond, rule, instance, what_if_unrecognised, detail_if_true='', loc=None, engine=None, facts=()):
+        """Verdict discipline for structural (idiom) rules: the enumerated form HOLDS; otherwise the first *fact* that is true
+        (a statement that holds whatever the form: a store that no path performs, roles that are provably exchanged ...) is a
+        VIOLATION with its own message; with no such fact the form is merely not enumerated: UNDECIDED, never a violation."""
+        if cond:
+            self.holds(rule, instance, detail_if_true, loc, engine)
+            return True
+        for (is_true, message) in facts:
+            if is_true:
+                self.violated(rule, instance, message, loc, engine)
+                return False
+        self.undecided(rule, instance, what_if_unrecognised, loc, engine)
+        return None
+
     def floor(self, rule, minimum):
         """Instance floor confirmed by hand on the pinned tree; falling below is UNDECIDED (vanished anchors)."""
         self.floors[rule] = minimum
